@@ -1,5 +1,6 @@
 import Pfst.JsonUtil
 import Pfst.Coerce
+import Pfst.CoerceArgs
 /-! Driver package for C19: `toPattern`, `toExpr`, `coerce` of the coercion model on JSON-encoded trees. -/
 namespace Pfst.Drv.C19
 open Lean Pfst.JsonUtil Pfst.Coerce
@@ -161,6 +162,27 @@ def parseTarget (s : String) : Option Target :=
   | "Set" => some (.seq .set)
   | _ => none
 
+def optExpr (j : Json) : Option (Option Expr) :=
+  if isNull j then some none else (parseExpr j).map some
+
+/-- param = [name, annotation|null, default|null] -/
+def parseParam (j : Json) : Option Param := do
+  let a ← asArr j
+  some { name := ← asStr (← a[0]?), ann := ← optExpr (← a[1]?), dflt := ← optExpr (← a[2]?) }
+
+def optParam (j : Json) : Option (Option Param) :=
+  if isNull j then some none else (parseParam j).map some
+
+def parseArguments (j : Json) : Option Arguments := do
+  let many (k : String) : Option (List Param) := do (← getArr j k).toList.mapM parseParam
+  some { posonly := ← many "posonly", args := ← many "args", vararg := ← optParam (← get j "vararg"),
+         kwonly := ← many "kwonly", kwarg := ← optParam (← get j "kwarg") }
+
+def tparamJson : TParam → Json
+  | .typeVar n b => Json.arr #["tv", Json.str n, ofOpt exprJson b]
+  | .typeVarTuple n => Json.arr #["tvt", Json.str n]
+  | .paramSpec n => Json.arr #["ps", Json.str n]
+
 def dispatch (f : String) (j : Json) : Option Json :=
   match f with
   | "C19.toPattern" => some <| Id.run do
@@ -186,6 +208,22 @@ def dispatch (f : String) (j : Json) : Option Json :=
       | some r => return Json.mkObj [("r", nodeJson r), ("same_kind", Json.bool (kindOK n t)),
                                      ("kind_ok", Json.bool (kindOK r t)), ("leaves_in", leavesJson (Node.leaves n)),
                                      ("leaves_out", leavesJson (Node.leaves r))]
+  | "C19.argsToTypeParams" => some <| Id.run do
+      let some a := (get j "a").bind parseArguments | return Json.mkObj [("err", "bad arguments")]
+      match argsToTypeParams a with
+      | none => return Json.mkObj [("r", Json.null)]
+      | some ts => return Json.mkObj [("r", Json.arr (ts.map tparamJson).toArray), ("leaves_in", leavesJson a.leaves),
+                                      ("leaves_out", leavesJson (leavesTs ts))]
+  | "C19.argsToAttrlikes" => some <| Id.run do
+      let some a := (get j "a").bind parseArguments | return Json.mkObj [("err", "bad arguments")]
+      let fmt := (getBool j "fmt").getD false
+      match argsToAttrlikes fmt a with
+      | none => return Json.mkObj [("r", Json.null)]
+      | some (ps, ks) =>
+        return Json.mkObj [("r", Json.mkObj [("patterns", Json.arr (ps.map patternJson).toArray),
+                                             ("kws", Json.arr (ks.map patternJson).toArray)]),
+                           ("leaves_in", leavesJson a.leaves), ("leaves_out", leavesJson (leavesP ps ++ leavesP ks)),
+                           ("defaults_suffix", Json.bool (defaultsSuffix a.args))]
   | "C19.norm" => some <| Id.run do
       let some e := (get j "e").bind parseExpr | return Json.mkObj [("err", "bad expr")]
       return exprJson e.norm
